@@ -36,7 +36,7 @@ def _children_branches(fn):
                 return st.body, st.orelse
             if extract.dotted(t) == "recursive":
                 return st.orelse, st.body
-    raise NotRecognised("children(): `if not recursive:` not found")
+    return [], []                        # TOTAL: no such branch → no comparison / guard is found in it
 
 
 def _one(ops, what):
@@ -45,16 +45,29 @@ def _one(ops, what):
     return ops[0]
 
 
+def _ctime_op(node, left_names, right_names, anchor):
+    """TOTAL: the operator text of the one create-time comparison under `node` (normalised to `left OP right`).
+    When the comparison is not between the expected operands (e.g. `self._create_time <= child.create_time()`,
+    two comparisons, a chained one) the value DESCRIBES what was found instead of raising: the text is no
+    operator, `Cmp.ofString` maps it to `.unknown`, and `cfg_good` fails with the new value in the message."""
+    ops = _ctime_compares(node, left_names, right_names)
+    if len(ops) == 1:
+        return ops[0]
+    found = [extract.unparse(n) for n in ast.walk(node) if isinstance(n, ast.Compare)
+             and any(anchor in extract.unparse(x) for x in [n.left] + list(n.comparators))]
+    return "unrecognised(%d): %s" % (len(ops), " ; ".join(found)[:160])
+
+
 def _wrap(stmts):
     return ast.Module(body=list(stmts), type_ignores=[])
 
 
 def _first_stmt_is_reuse_guard(fn):
+    """TOTAL: comments are not in the AST; the first real statement must be the guard call"""
     body = list(fn.body)
     if body and isinstance(body[0], ast.Expr) and isinstance(body[0].value, ast.Constant) \
             and isinstance(body[0].value.value, str):
         body = body[1:]
-    # comments are not in the AST; the first real statement must be the guard call
     if not body:
         return False
     st = body[0]
@@ -97,7 +110,7 @@ def seen_guard(fn):
     _, rec = _children_branches(fn)
     loops = [n for n in ast.walk(_wrap(rec)) if isinstance(n, ast.While)]
     if len(loops) != 1:
-        raise NotRecognised("children(recursive=True): expected one while loop, found %d" % len(loops))
+        return False                     # TOTAL: another loop structure is not the guarded walk the model has
     for n in ast.walk(loops[0]):
         if isinstance(n, ast.Compare) and len(n.ops) == 1 and isinstance(n.ops[0], (ast.In, ast.NotIn)) \
                 and extract.dotted(n.comparators[0]) == "seen":
@@ -106,13 +119,116 @@ def seen_guard(fn):
 
 
 def parents_seen(fn):
+    """TOTAL. True only for the PID-keyed cycle stop the model has: a collection seeded with `self.pid`,
+    the loop condition (or a test in the loop that leaves it) asks `<cur>.pid [not] in <that collection>`, and the
+    body adds `<cur>.pid` to it. A stop keyed by the Process OBJECT (`seen = {self}`, `proc not in seen`: same PID
+    with another start time compares unequal) is NOT this fact: `C05_parents_dyn_links` (no PID twice) and
+    `C05_parents_dyn_terminates` (PID-keyed measure) would no longer speak about the code."""
     loops = [n for n in ast.walk(fn) if isinstance(n, ast.While)]
     if len(loops) != 1:
-        raise NotRecognised("parents(): expected one while loop, found %d" % len(loops))
-    for n in ast.walk(loops[0]):
-        if isinstance(n, ast.Compare) and len(n.ops) == 1 and isinstance(n.ops[0], (ast.In, ast.NotIn)):
+        return False
+    loop = loops[0]
+    seeded = set()
+    for n in ast.walk(fn):
+        if isinstance(n, ast.Assign) and len(n.targets) == 1 and isinstance(n.targets[0], ast.Name):
+            v = n.value
+            elts = None
+            if isinstance(v, (ast.Set, ast.List, ast.Tuple)):
+                elts = v.elts
+            elif isinstance(v, ast.Call) and extract.dotted(v.func) in ("set", "list") and len(v.args) == 1 \
+                    and isinstance(v.args[0], (ast.Set, ast.List, ast.Tuple)):
+                elts = v.args[0].elts
+            if elts is not None and any(extract.dotted(e) == "self.pid" for e in elts):
+                seeded.add(n.targets[0].id)
+    if not seeded:
+        return False
+    tested = added = False
+    for n in ast.walk(loop):
+        if isinstance(n, ast.Compare) and len(n.ops) == 1 and isinstance(n.ops[0], (ast.In, ast.NotIn)) \
+                and extract.dotted(n.comparators[0]) in seeded and extract.dotted(n.left).endswith(".pid") \
+                and extract.dotted(n.left) != "self.pid":
+            tested = True
+        if isinstance(n, ast.Call) and isinstance(n.func, ast.Attribute) and n.func.attr in ("add", "append") \
+                and extract.dotted(n.func.value) in seeded and len(n.args) == 1 \
+                and extract.dotted(n.args[0]).endswith(".pid") and extract.dotted(n.args[0]) != "self.pid":
+            added = True
+    return tested and added
+
+
+def _body(fn):
+    body = list(fn.body)
+    if body and isinstance(body[0], ast.Expr) and isinstance(body[0].value, ast.Constant) \
+            and isinstance(body[0].value.value, str):
+        body = body[1:]
+    return body
+
+
+def _is_guard_call(st):
+    return isinstance(st, ast.Expr) and isinstance(st.value, ast.Call) \
+        and extract.dotted(st.value.func) == "self._raise_if_pid_reused"
+
+
+def root_guarded(fn):
+    """TOTAL. parent(): is the caller's identity checked before the lowest-PID stop answers None? Recognised:
+    `self._raise_if_pid_reused()` as the first statement of the `if self.pid == lowest_pid:` body, or as a
+    statement of parent() placed before that `if`, or `self.ppid()` called before it (ppid() is guarded:
+    fact ppidGuarded). False otherwise (psutil as found: the stop precedes every identity check)."""
+    for i, st in enumerate(_body(fn)):
+        if _is_guard_call(st):
             return True
+        if not isinstance(st, ast.If) and extract.calls_in(st, "ppid"):
+            return True
+        if isinstance(st, ast.If) and isinstance(st.test, ast.Compare) and len(st.test.ops) == 1 \
+                and isinstance(st.test.ops[0], ast.Eq) \
+                and {extract.dotted(st.test.left), extract.dotted(st.test.comparators[0])} == {"self.pid", "lowest_pid"}:
+            return bool(st.body) and _is_guard_call(st.body[0])
     return False
+
+
+def ppid_uncached(fn):
+    """TOTAL. ppid(): on POSIX the answer is `self._proc.ppid()` read afresh on every call — the branch taken
+    when `POSIX` holds is a bare `return self._proc.ppid()` and no statement of the function outside the
+    non-POSIX branch assigns to an attribute of `self` (a `self._ppid = self._ppid or …` cache, issue #321)."""
+    body = _body(fn)
+    posix_ret = False
+    for st in body:
+        if isinstance(st, ast.If) and extract.dotted(st.test) == "POSIX":
+            branch, other = st.body, st.orelse
+        elif isinstance(st, ast.If) and isinstance(st.test, ast.UnaryOp) and isinstance(st.test.op, ast.Not) \
+                and extract.dotted(st.test.operand) == "POSIX":
+            branch, other = st.orelse, st.body
+        else:
+            for n in ast.walk(st):
+                if isinstance(n, (ast.Assign, ast.AugAssign, ast.AnnAssign)):
+                    tg = n.targets if isinstance(n, ast.Assign) else [n.target]
+                    if any(extract.dotted(t).startswith("self.") for t in tg):
+                        return False
+                if isinstance(n, ast.Return) and n.value is not None and extract.unparse(n.value) != "self._proc.ppid()":
+                    return False
+            if isinstance(st, ast.Return) and st.value is not None and extract.unparse(st.value) == "self._proc.ppid()":
+                posix_ret = True
+            continue
+        if len(branch) == 1 and isinstance(branch[0], ast.Return) and branch[0].value is not None \
+                and extract.unparse(branch[0].value) == "self._proc.ppid()":
+            posix_ret = True
+        else:
+            return False
+    return posix_ret
+
+
+def ctime_cached(fn):
+    """TOTAL. create_time(): `if self._create_time is None: self._create_time = self._proc.create_time()` and
+    `return self._create_time` — the start time the object compares children and parents against is read ONCE."""
+    body = _body(fn)
+    if len(body) != 2:
+        return False
+    a, b = body
+    if not (isinstance(a, ast.If) and extract.unparse(a.test) == "self._create_time is None" and not a.orelse
+            and len(a.body) == 1 and isinstance(a.body[0], ast.Assign)
+            and extract.unparse(a.body[0].targets[0]) == "self._create_time"
+            and extract.unparse(a.body[0].value) == "self._proc.create_time()"):
+        return False
+    return isinstance(b, ast.Return) and b.value is not None and extract.unparse(b.value) == "self._create_time"
 
 
 def lowest_stop(fn):
@@ -128,7 +244,7 @@ def lowest_stop(fn):
                     and extract.const(v.orelse.slice) == 0:
                 assigned = True
             else:
-                raise NotRecognised("parent(): lowest_pid is computed as %s" % extract.unparse(v))
+                return False             # TOTAL: lowest_pid computed another way (e.g. pids()[-1]) is not this stop
         if isinstance(st, ast.If) and isinstance(st.test, ast.Compare) and len(st.test.ops) == 1 \
                 and isinstance(st.test.ops[0], ast.Eq) \
                 and {extract.dotted(st.test.left), extract.dotted(st.test.comparators[0])} == {"self.pid", "lowest_pid"} \
@@ -137,7 +253,7 @@ def lowest_stop(fn):
         if idx_ppid is None and extract.calls_in(st, "ppid") and not isinstance(st, ast.If):
             idx_ppid = i
     if idx_ppid is None:
-        raise NotRecognised("parent(): call of self.ppid() not found")
+        return False
     return bool(assigned and idx_stop is not None and idx_stop < idx_ppid)
 
 
@@ -156,9 +272,7 @@ def gone_raises(fn):
             continue
         if idx_reused is not None and extract.dotted(st.test) == "self._gone" and raises:
             return True
-    if idx_reused is None:
-        raise NotRecognised("_raise_if_pid_reused(): the `_pid_reused` test was not found")
-    return False
+    return False                         # TOTAL (also when the `_pid_reused` test itself is gone)
 
 
 def _find_flag(call):
@@ -170,16 +284,41 @@ def _find_flag(call):
     raise NotRecognised("neither find nor rfind: %s" % f)
 
 
-def ppid_map_facts(tree):
-    """(uses rfind, offset after the paren, index of the ppid token) in _pslinux.ppid_map()."""
+def _each(f):
+    """run an extractor that raises on the first unknown shape once per requested key, so that one unknown
+    shape only loses the fact it belongs to: → {key: value | NotRecognised}"""
+    def g(tree):
+        out = {}
+        for key in f.KEYS:
+            try:
+                out[key] = f(tree, only=key)[key]
+            except NotRecognised as e:
+                out[key] = e
+            except KeyError:
+                out[key] = NotRecognised("%s: shape not recognised" % key)
+        return out
+    return g
+
+
+def _get(d, key):
+    v = d[key]
+    if isinstance(v, Exception):
+        raise v
+    return v
+
+
+def ppid_map_facts(tree, only=None):
+    """{rfind, off, idx} of _pslinux.ppid_map(); with `only`, unknown shapes of the OTHER facts are ignored."""
     fn = extract.find_def(tree, "ppid_map")
     rfind = off = idx = None
     for n in ast.walk(fn):
         if isinstance(n, ast.Assign) and extract.dotted(n.targets[0]) == "rpar" and isinstance(n.value, ast.Call):
+            if only not in (None, "rfind"):
+                continue
             if extract.const(n.value.args[0]) != b")":
                 raise NotRecognised("ppid_map(): rpar searches %r" % (extract.const(n.value.args[0]),))
             rfind = _find_flag(n.value)
-        if isinstance(n, ast.Assign) and extract.dotted(n.targets[0]) == "dset":
+        if isinstance(n, ast.Assign) and extract.dotted(n.targets[0]) == "dset" and only in (None, "off"):
             # data[rpar + 2:].split()
             c = n.value
             if not (isinstance(c, ast.Call) and isinstance(c.func, ast.Attribute) and c.func.attr == "split" and not c.args):
@@ -195,9 +334,13 @@ def ppid_map_facts(tree):
             if isinstance(c, ast.Call) and extract.dotted(c.func) == "int" and isinstance(c.args[0], ast.Subscript) \
                     and extract.dotted(c.args[0].value) == "dset":
                 idx = extract.const(c.args[0].slice)
-    if rfind is None or off is None or idx is None:
+    out = {k: v for k, v in (("rfind", rfind), ("off", off), ("idx", idx)) if v is not None}
+    if only is None and len(out) != 3:
         raise NotRecognised("ppid_map(): shape not recognised")
-    return rfind, off, idx
+    return out
+
+
+ppid_map_facts.KEYS = ("rfind", "off", "idx")
 
 
 def ppid_map_skips_gone(tree):
@@ -233,17 +376,19 @@ def _ppid_map_quiet(tree, covering):
     return False
 
 
-def stat_file_facts(tree):
-    """(uses rfind, offset, index of 'ppid', index of 'create_time') in Process._parse_stat_file()."""
+def stat_file_facts(tree, only=None):
+    """{rfind, off, ppid, ctime} of Process._parse_stat_file(); with `only`, unknown shapes of the OTHER facts are ignored."""
     fn = extract.find_def(tree, "_parse_stat_file", cls="Process")
     rfind = off = None
     idx = {}
     for n in ast.walk(fn):
         if isinstance(n, ast.Assign) and extract.dotted(n.targets[0]) == "rpar" and isinstance(n.value, ast.Call):
+            if only not in (None, "rfind"):
+                continue
             if extract.const(n.value.args[0]) != b")":
                 raise NotRecognised("_parse_stat_file(): rpar searches %r" % (extract.const(n.value.args[0]),))
             rfind = _find_flag(n.value)
-        if isinstance(n, ast.Assign) and extract.dotted(n.targets[0]) == "fields":
+        if isinstance(n, ast.Assign) and extract.dotted(n.targets[0]) == "fields" and only in (None, "off"):
             c = n.value
             if not (isinstance(c, ast.Call) and isinstance(c.func, ast.Attribute) and c.func.attr == "split" and not c.args):
                 raise NotRecognised("_parse_stat_file(): fields = %s" % extract.unparse(c))
@@ -260,9 +405,14 @@ def stat_file_facts(tree):
                 idx.setdefault(extract.const(n.targets[0].slice), extract.const(n.value.slice))
             except NotRecognised:
                 pass
-    if rfind is None or off is None or "ppid" not in idx or "create_time" not in idx:
+    out = {k: v for k, v in (("rfind", rfind), ("off", off), ("ppid", idx.get("ppid")), ("ctime", idx.get("create_time")))
+           if v is not None}
+    if only is None and len(out) != 4:
         raise NotRecognised("_parse_stat_file(): shape not recognised")
-    return rfind, off, idx["ppid"], idx["create_time"]
+    return out
+
+
+stat_file_facts.KEYS = ("rfind", "off", "ppid", "ctime")
 
 
 def facts(snap, F):
@@ -278,23 +428,21 @@ def facts(snap, F):
     me = {"self.create_time()"}
     kid = {"child.create_time()"}
     F.try_add("childOp", "String",
-              lambda: extract.lean_str(_one(_ctime_compares(_wrap(_children_branches(fn("children"))[0]), me, kid),
-                                            "children() non-recursive")),
+              lambda: extract.lean_str(_ctime_op(_wrap(_children_branches(fn("children"))[0]), me, kid, "child.create_time")),
               "children(): operator in `self.create_time() OP child.create_time()` (non-recursive branch)")
     F.try_add("descOp", "String",
-              lambda: extract.lean_str(_one(_ctime_compares(_wrap(_children_branches(fn("children"))[1]), me, kid),
-                                            "children() recursive")),
+              lambda: extract.lean_str(_ctime_op(_wrap(_children_branches(fn("children"))[1]), me, kid, "child.create_time")),
               "children(recursive=True): operator in `self.create_time() OP child.create_time()`")
     F.try_add("parentOp", "String",
-              lambda: extract.lean_str(_one(_ctime_compares(fn("parent"), {"parent.create_time()"},
-                                                            {"ctime", "self.create_time()"}), "parent()")),
+              lambda: extract.lean_str(_ctime_op(fn("parent"), {"parent.create_time()"}, {"ctime", "self.create_time()"},
+                                                 "parent.create_time")),
               "parent(): operator in `parent.create_time() OP ctime`")
     F.try_add("seenGuard", "Bool", lambda: extract.lean_bool(seen_guard(fn("children"))),
               "the recursive walk of children() tests `pid in seen`")
     F.try_add("skipSelf", "Bool", lambda: extract.lean_bool(skip_self(fn("children"))),
               "children() drops the caller's own PID (ppid_map.pop(self.pid, …) or `!= self.pid` tests in both branches)")
     F.try_add("parentsSeen", "Bool", lambda: extract.lean_bool(parents_seen(fn("parents"))),
-              "the loop of parents() has a membership test that stops at an already visited process")
+              "the loop of parents() stops at a PID already on the chain: a collection seeded with self.pid, `<cur>.pid [not] in` it in the loop, `<cur>.pid` added in the body")
     F.try_add("childrenGuarded", "Bool", lambda: extract.lean_bool(_first_stmt_is_reuse_guard(fn("children"))),
               "children() starts with self._raise_if_pid_reused()")
     F.try_add("ppidGuarded", "Bool", lambda: extract.lean_bool(_first_stmt_is_reuse_guard(fn("ppid"))),
@@ -303,26 +451,32 @@ def facts(snap, F):
               "parent() returns None for self.pid == (_LOWEST_PID or pids()[0]) before calling ppid()")
     F.try_add("goneRaises", "Bool", lambda: extract.lean_bool(gone_raises(fn("_raise_if_pid_reused"))),
               "_raise_if_pid_reused() also raises NoSuchProcess when self._gone is set (after the reused test)")
+    F.try_add("rootGuarded", "Bool", lambda: extract.lean_bool(root_guarded(fn("parent"))),
+              "parent(): the caller's identity is checked (self._raise_if_pid_reused(), or self.ppid()) before the lowest-PID stop answers None")
+    F.try_add("ppidUncached", "Bool", lambda: extract.lean_bool(ppid_uncached(fn("ppid"))),
+              "ppid(): on POSIX a bare `return self._proc.ppid()` — no per-object cache of the parent PID")
+    F.try_add("ctimeCached", "Bool", lambda: extract.lean_bool(ctime_cached(fn("create_time"))),
+              "create_time(): read once, then answered from self._create_time")
     pm = {}
 
     def pmf():
         if "v" not in pm:
-            pm["v"] = ppid_map_facts(linux)
+            pm["v"] = _each(ppid_map_facts)(linux)
         return pm["v"]
     sf = {}
 
     def sff():
         if "v" not in sf:
-            sf["v"] = stat_file_facts(linux)
+            sf["v"] = _each(stat_file_facts)(linux)
         return sf["v"]
-    F.try_add("ppidMapRfind", "Bool", lambda: extract.lean_bool(pmf()[0]), "ppid_map(): `data.rfind(b')')` (true) or find (false)")
-    F.try_add("ppidMapOffset", "Nat", lambda: extract.lean_nat(pmf()[1]), "ppid_map(): `data[rpar + N:]`")
-    F.try_add("ppidMapIdx", "Nat", lambda: extract.lean_nat(pmf()[2]), "ppid_map(): `int(dset[N])`")
+    F.try_add("ppidMapRfind", "Bool", lambda: extract.lean_bool(_get(pmf(), "rfind")), "ppid_map(): `data.rfind(b')')` (true) or find (false)")
+    F.try_add("ppidMapOffset", "Nat", lambda: extract.lean_nat(_get(pmf(), "off")), "ppid_map(): `data[rpar + N:]`")
+    F.try_add("ppidMapIdx", "Nat", lambda: extract.lean_nat(_get(pmf(), "idx")), "ppid_map(): `int(dset[N])`")
     F.try_add("ppidMapSkipsDenied", "Bool", lambda: extract.lean_bool(ppid_map_skips_denied(linux)),
               "ppid_map(): an unreadable /proc/<pid>/stat (PermissionError) is skipped, not raised")
     F.try_add("ppidMapSkipsGone", "Bool", lambda: extract.lean_bool(ppid_map_skips_gone(linux)),
               "ppid_map(): a listed PID whose /proc/<pid>/stat is gone (FileNotFoundError and ProcessLookupError) is skipped, not raised")
-    F.try_add("statRfind", "Bool", lambda: extract.lean_bool(sff()[0]), "_parse_stat_file(): rfind (true) or find (false)")
-    F.try_add("statOffset", "Nat", lambda: extract.lean_nat(sff()[1]), "_parse_stat_file(): `data[rpar + N:]`")
-    F.try_add("statPpidIdx", "Nat", lambda: extract.lean_nat(sff()[2]), "_parse_stat_file(): ret['ppid'] = fields[N]")
-    F.try_add("statCtimeIdx", "Nat", lambda: extract.lean_nat(sff()[3]), "_parse_stat_file(): ret['create_time'] = fields[N]")
+    F.try_add("statRfind", "Bool", lambda: extract.lean_bool(_get(sff(), "rfind")), "_parse_stat_file(): rfind (true) or find (false)")
+    F.try_add("statOffset", "Nat", lambda: extract.lean_nat(_get(sff(), "off")), "_parse_stat_file(): `data[rpar + N:]`")
+    F.try_add("statPpidIdx", "Nat", lambda: extract.lean_nat(_get(sff(), "ppid")), "_parse_stat_file(): ret['ppid'] = fields[N]")
+    F.try_add("statCtimeIdx", "Nat", lambda: extract.lean_nat(_get(sff(), "ctime")), "_parse_stat_file(): ret['create_time'] = fields[N]")
